@@ -22,42 +22,48 @@ def special(tier, ops, count=(4000, 60000), extra=()):
     return dict(args=["--ops", ops, "--count", str(T(tier, *count) // 16)] + list(extra))
 
 
+# bitfield values reached through the mutation API, observed through the codec (`bfenc` lines)
+def reached(tier, count=(1600, 40000)):
+    return special(tier, "bfhist", count=count)
+
+
 CORR_ENC = ["corr.enc", "corr.has_ty", "corr.const"]
 CORR_DEC = ["corr.dec.class", "corr.dec.value", "corr.const"]
 
 PROPS = {
     "C01": dict(
-        runs=lambda t: [catalogue(t, "enc,dec", values=(60, 400), nbytes=(0, 0), exhaustive=(0, 0))],
-        corr=CORR_ENC + CORR_DEC, oracle=["oracle.C01"]),
+        runs=lambda t: [catalogue(t, "enc,dec", values=(60, 400), nbytes=(0, 0), exhaustive=(0, 0)), reached(t)],
+        corr=CORR_ENC + CORR_DEC + ["corr.bf"], oracle=["oracle.C01", "abort"]),
     "C02": dict(
         runs=lambda t: [catalogue(t, "dec", values=(16, 60), nbytes=(1200, 6000), exhaustive=(1, 1)),
                         catalogue(t, "dec", values=(0, 2), nbytes=(0, 0), exhaustive=(0, 2), tag="fixed")],
         corr=CORR_DEC + ["corr.enc"], oracle=["oracle.C02"]),
     "C03": dict(
-        runs=lambda t: [catalogue(t, "enc", values=(80, 600), nbytes=(0, 0), exhaustive=(0, 0))],
-        corr=CORR_ENC, oracle=["oracle.C03"]),
+        runs=lambda t: [catalogue(t, "enc", values=(80, 600), nbytes=(0, 0), exhaustive=(0, 0)), reached(t)],
+        corr=CORR_ENC + ["corr.bf"], oracle=["oracle.C03", "abort"]),
     "C04": dict(
         runs=lambda t: [catalogue(t, "enc,dec", values=(16, 60), nbytes=(1200, 6000), exhaustive=(1, 1)),
                         catalogue(t, "dec", values=(0, 2), nbytes=(0, 0), exhaustive=(0, 2), tag="fixed")],
         corr=CORR_DEC + ["corr.enc", "corr.has_ty"], oracle=["oracle.C04"]),
     "C05": dict(
         runs=lambda t: [catalogue(t, "enc,dec", values=(12, 40), nbytes=(1200, 6000), exhaustive=(1, 1)),
-                        special(t, "helpers,builder,listvar", count=(40000, 400000))],
-        corr=["corr.dec.class", "corr.builder", "corr.listvar", "corr.read_offset", "corr.split_union", "corr.const"],
+                        special(t, "helpers,builder,listvar", count=(40000, 400000)), reached(t, (800, 20000))],
+        corr=["corr.dec.class", "corr.builder", "corr.listvar", "corr.read_offset", "corr.split_union", "corr.const", "corr.bf"],
         oracle=["oracle.C05", "abort", "deep-abort"],
         deep=[(200, True), (20000, False)]),
     "C06": dict(
-        runs=lambda t: [catalogue(t, "decalloc", values=(12, 40), nbytes=(200, 1500), exhaustive=(0, 0))],
-        corr=["corr.alloc", "corr.dec.class", "corr.const"], oracle=["oracle.C06", "abort"],
+        runs=lambda t: [catalogue(t, "decalloc", values=(12, 40), nbytes=(200, 1500), exhaustive=(0, 0)),
+                        special(t, "listvar", count=(24000, 300000))],
+        corr=["corr.alloc", "corr.dec.class", "corr.listvar", "corr.const"], oracle=["oracle.C06", "abort"],
         rule="decode calls under a counting global allocator (peak live bytes, largest single request); inputs: valid encodings, "
              "mutations, offset-table grammar and strings whose offset words announce counts in {len/4+1, 2^16..2^30, 2^32-4}; "
              "non-trivial = inputs of at least 4 bytes",
         assumptions=["heap bytes <= 8 x (largest nested element size) x (units + 1) + 4096: Vec growth policy, BTree node "
                      "overhead and error-string allocations are std behaviour, measured not proved"]),
     "C07": dict(
-        runs=lambda t: [catalogue(t, "meta,enc,dec", values=(40, 200), nbytes=(100, 800), exhaustive=(1, 1))],
-        corr=["corr.meta", "corr.bytes_len", "corr.enc", "corr.has_ty", "corr.dec.class", "corr.const"],
-        oracle=["oracle.C07"]),
+        runs=lambda t: [catalogue(t, "meta,enc,dec", values=(40, 200), nbytes=(100, 800), exhaustive=(1, 1)), reached(t)],
+        corr=["corr.meta", "corr.bytes_len", "corr.enc", "corr.has_ty", "corr.dec.class", "corr.const", "corr.bf"],
+        oracle=["oracle.C07", "abort"]),
     "C08": dict(
         runs=lambda t: [catalogue(t, "meta,enc,dec,app", values=(12, 80), nbytes=(100, 1000), exhaustive=(1, 1), tag="derive"),
                         dict(args=["--ops", "derive"], shards=1)],
@@ -73,9 +79,9 @@ PROPS = {
         oracle=["oracle.C09"]),
     "C10": dict(
         runs=lambda t: [catalogue(t, "app", values=(24, 120), nbytes=(0, 0), exhaustive=(0, 0)),
-                        special(t, "encoder", count=(40000, 400000))],
-        corr=["corr.append", "corr.as_bytes", "corr.encoder", "corr.has_ty", "corr.const"],
-        oracle=["oracle.C10"]),
+                        special(t, "encoder", count=(40000, 400000)), reached(t)],
+        corr=["corr.append", "corr.as_bytes", "corr.encoder", "corr.has_ty", "corr.const", "corr.bf", "corr.enc"],
+        oracle=["oracle.C10", "abort"]),
     "C15": dict(
         runs=lambda t: [catalogue(t, "enc,dec", values=(48, 200), nbytes=(80, 600), exhaustive=(1, 1), tag="union",
                                   extra=["--selectors"]),
@@ -87,7 +93,7 @@ PROPS = {
         corr=["corr.listvar", "corr.listvar.calls", "corr.const"], oracle=["oracle.C16"]),
     "C11": dict(
         runs=lambda t: [special(t, "bfhist", count=(16000, 200000))],
-        corr=["corr.bf", "corr.const"], oracle=["oracle.C11"],
+        corr=["corr.bf", "corr.enc", "corr.bytes_len", "corr.const"], oracle=["oracle.C11", "abort"],
         rule="operation histories (up to 40 operations over four registers; indices, shifts and lengths drawn "
              "around the capacity and byte boundaries) for BitList / BitVector of the 15 catalogue capacities and the "
              "dynamic flavour; every observation after every step is compared; non-trivial = every history line"),
@@ -100,8 +106,8 @@ PROPS = {
     "C14": dict(
         runs=lambda t: [special(t, "bfbytes,bfwithlen", count=(3000, 60000), extra=["--exhaustive", "1"]),
                         dict(args=["--ops", "bfbytes", "--count", "16", "--exhaustive", "2"]) if t == "thorough" else
-                        dict(args=["--ops", "bfwithlen", "--count", "64"], shards=1)],
-        corr=["corr.bf.bytes", "corr.bf.withlen", "corr.const"], oracle=["oracle.C14"]),
+                        dict(args=["--ops", "bfwithlen", "--count", "64"], shards=1), reached(t)],
+        corr=["corr.bf.bytes", "corr.bf.withlen", "corr.const", "corr.bf", "corr.enc"], oracle=["oracle.C14", "abort"]),
     "C17": dict(
         runs=lambda t: [catalogue(t, "meta,enc,dec,app", values=(16, 120), nbytes=(150, 1500), exhaustive=(1, 1), tag="legacy")],
         corr=CORR_ENC + CORR_DEC + ["corr.meta", "corr.bytes_len", "corr.append", "corr.as_bytes"],
